@@ -28,6 +28,7 @@ THEOREMS = [
     "C32.no_lost_wakeup",
     "C32.after_fault_nothing",
     "C32.after_fault_no_run",
+    "C32.lostToken_only_after_dispose",
 ]
 RULE = ("method-level histories: 1-2 producers x 0..6 calls (next/error/completed, also after a terminal), pumps of a manual scheduler "
         "interleaved at random, raising deliveries at random indices; non-trivial = a pump occurs between two emits, or a delivery raises, "
@@ -36,7 +37,7 @@ RULE = ("method-level histories: 1-2 producers x 0..6 calls (next/error/complete
 ASSUMPTIONS = [
     "atomicity: a `with self.lock:` block is one step; `list.append`, a single attribute read/write are one step each (CPython GIL)",
     "the target scheduler eventually runs every scheduled action and runs `run` on its own thread(s); it is abstracted as a counter of pending runs",
-    "ScheduledObserver.dispose is outside this property's quantifier (never called on the observe_on path) and is not modelled",
+    "ScheduledObserver.dispose (ReplaySubject's unsubscribe; never called on the observe_on path) IS modelled: disposer threads set is_stopped and dispose the SerialDisposable, which cancels a still-pending run scheduled by ensure_active (not the re-scheduled ones); all safety theorems hold with disposers; no_lost_wakeup / exactly_once then carry the explicit `lostToken` case",
     "'received' means the order of the queue.append steps; 'delivered' the order in which downstream callbacks are entered",
 ]
 TRUSTED_EXTRA = ["interleaving controller harness/sched/thr_ctl.py + thr_so.py (event extraction, section classification)"]
@@ -68,6 +69,11 @@ def cases(rng, tier):
                 p = rng.choice([i for i, l in enumerate(left) if l])
                 left[p] -= 1
                 ops.append(["emit", p])
+        ndisp = 0
+        if via == "direct" and rng.random() < 0.2:
+            for _ in range(rng.choice([1, 1, 2])):
+                ops.insert(rng.randrange(len(ops) + 1), ["dispose", ndisp])
+                ndisp += 1
         total = sum(len(p) for p in progs)
         ops += [["pump", 0]] * (total + 2)
         raises = sorted({rng.randrange(0, max(1, total)) for _ in range(rng.choice([0, 0, 0, 1, 2]))})
@@ -79,7 +85,8 @@ def model_request(case):
         return None
     from sched.thr_so import call_item
 
-    return {"op": "so_seq", "progs": [[call_item(c) for c in p] for p in case["progs"]], "nc": 1, "raises": case["raises"], "ops": case["ops"]}
+    return {"op": "so_seq", "progs": [[call_item(c) for c in p] for p in case["progs"]], "nc": 1, "raises": case["raises"], "ops": case["ops"],
+            "nd": sum(1 for o in case["ops"] if o[0] == "dispose")}
 
 
 class _SeqDown:
@@ -113,8 +120,13 @@ def impl(case):
 
     class Manual:
         def schedule(self, action, state=None):
-            pending.append((action, state))
-            return Disposable()
+            entry = (action, state)
+            pending.append(entry)
+
+            def cancel():
+                pending[:] = [e for e in pending if e is not entry]
+
+            return Disposable(cancel)
 
     sched = Manual()
     other_pending = []
@@ -154,6 +166,8 @@ def impl(case):
                 target.on_error(InjectedError(f"e{c[1]}"))
             else:
                 target.on_completed()
+        elif o[0] == "dispose":
+            target.dispose()
         else:
             if pending:
                 a, st = pending.pop(0)
@@ -179,6 +193,8 @@ def _received(case):
                 out.append(c)
                 if c[0] != "N":
                     stopped = True
+        elif o[0] == "dispose":
+            stopped = True  # dispose() sets is_stopped: later calls are dropped
     return out
 
 
@@ -228,7 +244,8 @@ def oracle(case, out):
             return f"more than one delivery in one scheduler turn at op {i}"
     if prev != rec[: len(prev)]:
         return f"delivered {prev} is not a prefix of received {rec}"
-    if not raised and prev != rec:
+    disposed = any(o[0] == "dispose" for o in case["ops"])
+    if not raised and prev != rec and not disposed:
         return f"scheduler drained but {len(rec) - len(prev)} notification(s) undelivered"
     if raised and len(prev) != min(case["raises"]) + 1:
         return f"deliveries {len(prev)} after a raise at index {min(case['raises'])}"
@@ -253,6 +270,8 @@ def bucket(case, out):
     yield "via:" + case["via"]
     yield f"producers:{len(case['progs'])}"
     yield "raises" if case["raises"] else "no-raise"
+    if any(o[0] == "dispose" for o in case["ops"]):
+        yield "dispose"
     yield "escaped" if out["escaped"] else "clean"
 
 
@@ -368,6 +387,7 @@ def thread_configs(tier):
         ("pool-arrival-during-last-delivery", {"progs": [[["N", 1], ["N", 2]]], "nc": 2, "raises": [], "sched": "pool", "handshake": True}, 1 if q else 2),
         ("pool-arrival-after-fault", {"progs": [[["N", 1], ["N", 2], ["N", 3]]], "nc": 1, "raises": [0], "sched": "pool", "handshake": True,
                                       "catching": True}, 1 if q else 2),
+        ("pool-dispose", {"progs": [[["N", 1], ["N", 2]]], "nc": 1, "raises": [], "sched": "pool", "ndisp": 1}, 1 if q else 2),
         ("pool-2p1c", {"progs": [[["N", 1], ["C", 2]], [["N", 11], ["E", 12]]], "nc": 1, "raises": [], "sched": "pool"}, 1 if q else 2),
         ("eventloop", {"progs": [P3], "raises": [], "sched": "eventloop"}, 2 if q else 3),
         ("eventloop-raise", {"progs": [[["N", 1], ["N", 2]]], "raises": [0], "sched": "eventloop"}, 1 if q else 2),
@@ -422,7 +442,7 @@ def extra(rng, tier):
             if "trace" in r:
                 ndistinct[name] = ndistinct.get(name, 0) + 1
                 reqs.append({"op": "so_trace", "progs": [[thr_so.call_item(c) for c in p] for p in cfg["progs"]], "nc": r["nc"],
-                             "raises": cfg.get("raises", []), "trace": r["trace"]})
+                             "nd": cfg.get("ndisp", 0), "raises": cfg.get("raises", []), "trace": r["trace"]})
                 owners.append(case)
     pf = []
     if reqs:
@@ -497,4 +517,5 @@ LEVEL_TEXT = ("Lean theorems over an atomic-step model of ScheduledObserver/Obse
               "lock/flag/queue events are replayed step by step in the model, + the property oracle on every explored schedule.")
 LEVEL_NOTE = ("Assumed, not proved: the atomicity of the model's steps (validated by the controller at line granularity: guarded fields are only "
               "touched inside the lock, every locked section is one model step), fairness of the target scheduler, CPython list.append atomicity. "
-              "ScheduledObserver.dispose (used by ReplaySubject on unsubscribe) is not modelled.")
+              "ScheduledObserver.dispose is modelled (disposer threads; a cancelled pending run = lostToken, only possible after the SerialDisposable was "
+              "disposed); the cancel guard in the model repeats `serialDisposed`, which the trace replay validates.")
